@@ -80,11 +80,13 @@ Print Assumptions C03_tie_ack.
 
 (* ------------------------------------------------------------------------------------------
    The same property on the second-generation session model (coq/theories/Session2): the client's
-   output queue and a transport that may refuse writes are modelled; events distinguish a packet
-   HANDED to the connection from a packet WRITTEN; reconnect() drops what is still queued. *)
+   output queue and a transport that ACCEPTS writes, REFUSES them (BlockingIOError) or FAILS HARD (OSError: the
+   connection is torn down inside the write) are modelled; events distinguish a packet
+   HANDED to the connection from a packet WRITTEN; reconnect() drops what is still queued.
+   [no_fail ops]: the history contains no hard write failure ([OTransport TFail]). *)
 From PahoV Require Import Session2.Model Session2.Check Session2.Statements Session2.C03Proofs.
 
-(* the receiver refinement with replies that may be deferred: replies are handed to the queue in the operation that processes the inbound packet, in the abstract receiver's order *)
+(* ARBITRARY histories, hard write failures included. The receiver refinement with replies that may be deferred: replies are handed to the queue in the operation that processes the inbound packet, in the abstract receiver's order *)
 Theorem C03_with_blocking_transport : forall c ops,
   c03_ok c (optrace c ops) = true.
 Proof. exact c03_proved. Qed.
